@@ -84,7 +84,11 @@ class World:
         # an asset alone at its node and active on the second day only: on the other grids that node has no dispatch at all
         n3 = Node("n3")
         self.late = SimpleContract(name="late", nodes=n3, price="p", min_cap=-1.0, max_cap=1.0, start=T("2021-01-02 06:00"), end=T("2021-01-03"))
-        self.pf = Portfolio([self.con, self.sto, self.ob, self.tr, self.xtr, self.mk2, self.st, self.late, self.pl])
+        # a plant with a fuel node whose efficiency is a time series of the price data (a dispatch factor that changes with the prices)
+        nf = Node("nf")
+        self.plf = Plant(name="plf", nodes=[n1, nf], min_cap=0.0, max_cap=2.0, fuel_efficiency="eff")
+        self.gas = SimpleContract(name="gas", nodes=nf, price="q", min_cap=0.0, max_cap=10.0)
+        self.pf = Portfolio([self.con, self.sto, self.ob, self.tr, self.xtr, self.mk2, self.st, self.late, self.pl, self.plf, self.gas])
         self.fm = SimpleContract(name="fm", nodes=n1, price="p", min_cap=-5.0, max_cap=5.0)
         # capacities as float arrays of grid length (valid on the 4-step grids only), in a portfolio of their own
         self.cap4 = np.array([1.0, 2.0, 1.5, 0.5])
@@ -106,7 +110,8 @@ class World:
                 base = np.array([1, 5, 2, 6, 1.5, 5.5, 2.5, 6.5], float)
                 p = np.array([base[i % 8] for i in range(g.T)]) * (1.0 if pj == 0 else 0.5) + pj
                 q = p[::-1].copy() + 0.25
-                row.append(dict(p=p, q=q))
+                eff = np.array([0.5 if (pj == 0 or i % 2 == 0) else 0.4 for i in range(g.T)])
+                row.append(dict(p=p, q=q, eff=eff))
             self.P.append(row)
         # prices as a DataFrame without dates (row i = step i), valid for every grid of four steps
         self.Pdf4 = pd.DataFrame({k: np.asarray(v, float) for k, v in self.P[0][0].items()})
@@ -118,7 +123,7 @@ class World:
 
     def objects(self):
         return dict(con=self.con, sto=self.sto, tr=self.tr, mk2=self.mk2, isto=self.isto, itr=self.itr, st=self.st, pf=self.pf,
-                    fm=self.fm, flat=self.flat, capd=self.capd, taked=self.taked, P=self.P, ob=self.ob, late=self.late, pl=self.pl, cap_arr=self.cap_arr, cap4=self.cap4, arr4=self.arr4, pf_arr=self.pf_arr, xtr=self.xtr, xtake=self.xtake, orders=self.orders, orders_df=self.orders_df, fw=self.fw, pf_fix=self.pf_fix, Pdf4=self.Pdf4,
+                    fm=self.fm, flat=self.flat, capd=self.capd, taked=self.taked, P=self.P, ob=self.ob, late=self.late, pl=self.pl, plf=self.plf, gas=self.gas, cap_arr=self.cap_arr, cap4=self.cap4, arr4=self.arr4, pf_arr=self.pf_arr, xtr=self.xtr, xtake=self.xtake, orders=self.orders, orders_df=self.orders_df, fw=self.fw, pf_fix=self.pf_fix, Pdf4=self.Pdf4,
                     ctx=(self.cur, self.last, None if self.last_op is None else "op", sorted(self.acur.items())))
 
     def key(self):
